@@ -308,3 +308,63 @@ func VH_C16_ParallelPreload() {
 	vhAssert(len(base.log) == 0, "preload writes nothing")
 	vhReach("preload-done")
 }
+
+// The commit order itself, on identifiers whose 16 bytes are ALL symbolic: the
+// keys the deterministic commits walk are exactly the owned pending
+// identifiers, in strictly ascending (owner, index) order as byte strings
+// (owner first, big-endian). Three pending entries; the write set is a Go map
+// explored in every iteration order.
+//
+//vh:prop C04
+//vh:maporder any
+func VH_C04_CommitKeyOrder() {
+	base := newVBase()
+	st := vhNewPersistent(base)
+	const n = 3
+	ids := make([]SlabID, n)
+	for i := range ids {
+		for b := 0; b < SlabAddressLength; b++ {
+			ids[i].address[b] = vhU8("a")
+		}
+		for b := 0; b < SlabIndexLength; b++ {
+			ids[i].index[b] = vhU8("x")
+		}
+		for j := 0; j < i; j++ {
+			vhAssume(ids[i] != ids[j])
+		}
+		st.deltas[ids[i]] = vhVerSlab(ids[i], uint64(i+1))
+	}
+	keys := st.sortedOwnedDeltaKeys()
+	nowned := 0
+	for _, id := range ids {
+		if id.address != AddressUndefined {
+			nowned++
+			found := false
+			for _, k := range keys {
+				if k == id {
+					found = true
+				}
+			}
+			vhAssert(found, "every owned pending identifier is committed")
+		}
+	}
+	vhAssert(len(keys) == nowned, "only owned pending identifiers are committed, each once")
+	less := func(x, y SlabID) bool {
+		// lexicographic on the 16 raw bytes (owner, then index)
+		for b := 0; b < SlabAddressLength; b++ {
+			if x.address[b] != y.address[b] {
+				return x.address[b] < y.address[b]
+			}
+		}
+		for b := 0; b < SlabIndexLength; b++ {
+			if x.index[b] != y.index[b] {
+				return x.index[b] < y.index[b]
+			}
+		}
+		return false
+	}
+	for i := 1; i < len(keys); i++ {
+		vhAssert(less(keys[i-1], keys[i]), "commit keys strictly ascending by (owner, index)")
+	}
+	vhReach("key-order-done")
+}
